@@ -262,9 +262,71 @@ def _conv_shard(item):
 
 # ------------------------------------------------------------------ run / replay
 
+def host_roundtrip_shard(item):
+    """the round trip under ANOTHER host interpreter (worker op 'roundtrip'): the unparser has
+    host-dependent code (f-string quoting before 3.12, `from ast import *` name clashes)"""
+    from .. import interp
+    host, sources, prop = item
+    part = new_part()
+    pl = interp.Pool()
+    try:
+        if host not in pl.found:
+            part["discarded"]["host-%s-not-found" % host] += len(sources)
+            return part
+        for k in range(0, len(sources), 2000):
+            chunk = sources[k:k + 2000]
+            r = pl.get(host).call({"op": "roundtrip", "repo": env.REPO, "sources": chunk}, timeout=600)
+            if r.get("worker_error") or not r.get("ok"):
+                raise env.HarnessError("host worker %s: %s" % (host, r.get("err")))
+            part["evaluations"] += r["parsed"]
+            part["classes"]["host:" + host] += r["parsed"]
+            part["discarded"]["host-%s-parser-rejects" % host] += len(chunk) - r["parsed"]
+            for idx, why in r["failures"]:
+                part["nontrivial"].add(key_hash(host, chunk[idx]))
+                if len(part["violations"]) < 3:
+                    part["violations"].append({
+                        "payload": {"kind": "expr-host", "source": chunk[idx], "host": host},
+                        "diffs": [why], "what": "round trip fails on host %s" % host})
+        part["nontrivial"] = len(sources) if not part["violations"] else part["nontrivial"]
+    finally:
+        pl.close()
+    return part
+
+
+def replay_expr_host(payload):
+    from .. import interp
+    pl = interp.Pool()
+    try:
+        r = pl.get(payload["host"]).call({"op": "roundtrip", "repo": env.REPO, "sources": [payload["source"]]}, timeout=120)
+        if r.get("worker_error") or not r.get("ok"):
+            raise env.HarnessError("host worker %s: %s" % (payload["host"], r.get("err")))
+        return [why for idx, why in r["failures"]]
+    finally:
+        pl.close()
+
+
+def host_sources(seed, n_depth3):
+    import random as _r
+    out = [gx.compose2(slot, kind) for slot in gx.SLOT_ORDER for kind in gx.KIND_ORDER]
+    rng = _r.Random(seed)
+    for _ in range(n_depth3):
+        out.append(gx.compose3(rng.choice(gx.SLOT_ORDER), rng.choice(gx.SLOT_ORDER), rng.choice(gx.KIND_ORDER)))
+    return out
+
+
 def run(report):
     quick = report.tier == "quick"
     report.rule = RULE
+    # (0) host dimension
+    from .. import hosts as _hosts
+    others = _hosts.available_other_hosts()
+    if others:
+        srcs = host_sources(env.sub_seed(report.seed, "C03", "host"), 20000 if quick else 400000)
+        per = max(1, env.NPROC // len(others))
+        for part in env.pmap(host_roundtrip_shard, [(h, srcs[j::per], "C03") for h in others for j in range(per)]):
+            report.absorb(part)
+        report.extra["other_hosts"] = others
+        report.extra["host_sources"] = len(srcs)
     # (1)
     for part in env.pmap(_depth2_shard, gx.SLOT_ORDER):
         report.absorb(part)
@@ -380,6 +442,8 @@ def _ast_from_dump(dump):
 
 
 def replay(payload):
+    if payload.get("kind") == "expr-host":
+        return replay_expr_host(payload)
     k = payload.get("kind")
     if k == "expr":
         try:
